@@ -145,6 +145,8 @@ impl Store {
         let collection = self.messages();
         if let Ok(messages) = collection.query(&q) {
             for m in messages.rows.iter() {
+                #[cfg(feature = "verif")]
+                crate::verif::pause("tick.resend");
                 let mut message = m.clone();
                 message.update_time = utils::time::time_millis();
                 if message.retry_times < max_message_retry_times {
